@@ -31,6 +31,13 @@ def load_checks() -> dict[str, dict]:
 NOT_YET = "check not built yet in this revision (planned as Lean proof + correspondence, see DESIGN.md section 7)"
 
 
+def open_findings():
+    p = VERIF / "known_findings.json"
+    if not p.exists():
+        return []
+    return [e["id"] for e in json.loads(p.read_text()).get("findings", []) if e.get("status") == "open"]
+
+
 def main():
     props = [json.loads(l)["id"] for l in (VERIF / "properties.jsonl").read_text().splitlines() if l.strip()]
     CHECKS = load_checks()
@@ -69,7 +76,11 @@ def main():
                       kind_free_text="Lean 4 model and theorems; compiled Mathlib-free driver; Python harness that "
                                      "runs the real rtflite and compares / judges with Lean-defined functions")],
         checks=checks,
-        notes="See DESIGN.md. `./check <ID> --tier quick|thorough`, exit 0/1/2 (2 = machinery error).",
+        notes="See DESIGN.md (section 0 first). `./check <ID> --tier quick|thorough [--replay FILE]`, exit 0 held / 1 "
+              "VIOLATION / 2 machinery error. No source hooks: deterministic thread scheduling and fault injection work "
+              "through sys.settrace / sys.setprofile from the harness. Genuine defects of rtflite found by the checks "
+              "were repaired by unguarded `fix:` commits in /repo (listed with the failing input in DESIGN.md section 8 "
+              "and as `fixed:` lines in known_findings.json); open known findings: " + ", ".join(open_findings()) + ".",
         not_applicable=na,
     )
     (VERIF / "MANIFEST.json").write_text(json.dumps(man, indent=1, ensure_ascii=False) + "\n")
